@@ -18,7 +18,7 @@ DEALLOC = 'structures::paging::frame_alloc::FrameDeallocator::deallocate_frame'
 
 
 def run(chk):
-    chk.trusted += ['spec/mapper.py, spec/paging.py', 'C20: the recursive addresses denote the page\'s level-3/2/1 tables', 'C08: PageTable::zero clears all 512 slots',
+    chk.trusted += ['spec/mapper.py, spec/paging.py', 'C20: the recursive addresses denote the page\'s level-3/2/1 tables', 
                     'frame_to_pointer maps a table frame to that table\'s memory (the PageTableFrameMapping contract)']
     chk.explanation = ('Decided: (D1) raw-pointer dereferences in the mapper modules occur only in the three walker primitives and in RecursivePageTable operations; on every path of every '
                        'operation each dereferenced pointer is frame_to_pointer(frame of a tested entry) or a recursive table address of known level, and is guarded by present/huge-page checks of '
@@ -28,6 +28,14 @@ def run(chk):
                        '(D4) every write in mapper code goes to a page-table slot. Not decided: the byte-level statement about physical memory and the behaviour of the allocator.')
     lab = MapperLab(chk)
     chk.guard('census', 'raw dereferences', lambda: census(chk, lab))
+    # what `zero()` (an event in the path rules below) does to a table: every one of the 512 slots is cleared
+    from .c08 import iter_rules
+    from ..interp import State
+
+    def r1(fn_, args, st=None, sub=None):
+        chk.count('function-instances')
+        return chk.I.run(fn_, args, st if st is not None else State(), sub)
+    chk.guard('iter', 'PageTable::zero / iter_mut', lambda: iter_rules(chk, chk.I, r1))
     runs = {}
     for impl in IMPLS:
         for size in SIZES3:
